@@ -228,7 +228,8 @@ func ensureList(name string, parent ContainerBuilder) (ListBuilder, uint, string
 	index, _ := strconv.Atoi(name[idx[0]+1 : idx[1]-1])
 	name2 := name[0:idx[0]]
 	var list ListBuilder
-	if l := parent.Child(name2); l == nil {
+	if l := parent.Child(name2); l == nil || !l.IsList() {
+		// nothing there yet, or something that is not a list (e.g. nil leaf used as padding), so (re)create it
 		list = parent.AddList(name2)
 	} else {
 		list = l.(ListBuilder)
